@@ -17,6 +17,7 @@ import PV.Gen.Schema
 import PV.Model.JsonRep
 import PV.Model.Dobs
 import PV.Model.Cov
+import PV.Model.Gevp
 
 open Lean PV PV.Wire
 
@@ -315,6 +316,53 @@ def opCov (j : Json) : Except String Json := do
   let corr : Bool ← get j "correlation"
   pure (obj [("m", enc (covarianceMatrix obs dv corr))])
 
+/-- op "gevp":
+    what = "gevp":   the control flow of Corr.GEVP with LAPACK's ascending eigenvectors as oracle input
+    what = "sort":   _sort_vectors
+    what = "pencil": the Hankel slicing of the matrix-pencil method -/
+def opGevp (j : Json) : Except String Json := do
+  let what : String ← get j "what"
+  let gerr (e : GErr) : Json := obj [("exc", .str (reprStr e))]
+  match what with
+  | "gevp" => do
+    let sortJ ← field j "sort"
+    let sort : SortMode := match sortJ with
+      | .null => .none
+      | .str "Eigenvalue" => .eigenvalue
+      | .str "Eigenvector" => .eigenvector
+      | _ => .unknown
+    let method : String ← get j "method"
+    let cholInv : Option (List (List Float)) ← get j "cholinv"
+    let g : GevpIn Float := {
+      N := ← get j "N", T := ← get j "T", t0 := ← get j "t0", ts := ← get j "ts", sort := sort,
+      cholesky := method == "cholesky", defined := ← get j "defined", pd := ← get j "pd",
+      cholInv := cholInv.getD [], asc := ← get j "asc" }
+    match gevp g with
+    | .error e => pure (gerr e)
+    | .ok (.single vs) => pure (obj [("vecs", enc vs)])
+    | .ok (.perT vs) => pure (obj [("vecs", enc vs)])
+  | "sort" => do
+    let vecs : List (Option (List (List Float))) ← get j "vecs"
+    let ts : Nat ← get j "ts"
+    match sortVectors vecs ts with
+    | .error e => pure (gerr e)
+    | .ok r => pure (obj [("vecs", enc r)])
+  | "pencil" => do
+    let y : List Float ← get j "y"
+    let p : Nat ← get j "p"
+    let (y1, y2) := pencil y p
+    pure (obj [("y1", enc y1), ("y2", enc y2)])
+  | "projected" => do
+    let content : List (Option (List (List Float))) ← get j "content"
+    match (← field j "vecs") with
+    | .null => do
+      let v : List Float ← get j "v"
+      pure (obj [("vals", enc (projectedFixed content v))])
+    | vj => do
+      let vs : List (Option (List Float)) ← dec vj
+      pure (obj [("vals", enc (projectedList content vs))])
+  | _ => .error s!"unknown gevp request {what}"
+
 def dispatch (op : String) (j : Json) : Except String Json :=
   match op with
   | "gamma" => opGamma false j
@@ -331,6 +379,7 @@ def dispatch (op : String) (j : Json) : Except String Json :=
   | "schema" => opSchema j
   | "dobs" => opDobs j
   | "cov" => opCov j
+  | "gevp" => opGevp j
   | "jsonrep" => opJsonRep j
   | "renumber" => opRenumber j
   | "mkobs" => opMkObs j
